@@ -217,7 +217,7 @@ class Ipmitool(object):
             # we have to do bridging here
             if len(target.routing) == 1:
                 pass
-            if len(target.routing) == 2:
+            elif len(target.routing) == 2:
                 # ipmitool/shelfmanager does implicit bridging
                 cmd += (' -t 0x%02x' % target.routing[1].rs_sa)
                 cmd += (' -b %d' % target.routing[0].channel)
